@@ -78,6 +78,10 @@ func (x *Exec) goToSQL(st *State, v Value, want Sort) (Term, bool) {
 		if vv.T.Sort == SBool {
 			return Term{}, false
 		}
+		if want == SOptB && vv.T.Sort == SStr {
+			// a Go string bound to a blob / json position: its bytes
+			return optSome(SOptB, App(SBytes, "bytes.ofstr", vv.T)), true
+		}
 		if want != "" && s != want {
 			return Term{}, false
 		}
@@ -100,6 +104,9 @@ func (x *Exec) goToSQL(st *State, v Value, want Sort) (Term, bool) {
 			return Term{}, false
 		}
 		s := optOf(sv.T.Sort)
+		if want == SOptB && sv.T.Sort == SStr {
+			return Ite(vv.Nil, optNone(SOptB), optSome(SOptB, App(SBytes, "bytes.ofstr", sv.T))), true
+		}
 		if want != "" && s != want {
 			return Term{}, false
 		}
